@@ -270,6 +270,22 @@ def install(ctx):
             return opt_sym(okc, Ref(Loc(Cell(Str(s.b, z3.simplify(s.lo + a), z3.simplify(s.lo + b)), 'str.get'))))
         raise Unsupported('str::get with %r' % (rng,))
 
+    @M.reg('str::split', 'str::splitn')
+    def str_split(ip, pc, args, dt):
+        if pc['method'] == 'splitn':
+            limit, s_, pat = args[1], as_str(args[0]), args[2]
+            lim = concrete_int(limit.t)
+            if lim is None:
+                raise Unsupported('splitn with a symbolic limit')
+        else:
+            s_, pat, lim = as_str(args[0]), args[1], None
+        if not (isinstance(pat, S) and pat.ty == 'char'):
+            raise Unsupported('split on %r' % (pat,))
+        c = concrete_int(pat.t)
+        if c is None or c >= 0x80:
+            raise Unsupported('split on a non-ASCII / symbolic char')
+        return SplitM(s_, c, s_.lo, z3.BoolVal(False), lim)
+
     @M.reg('str::find')
     def str_find(ip, pc, args, dt):
         s, pat = as_str(args[0]), args[1]
@@ -406,6 +422,30 @@ def install(ctx):
             val = z3.If(inr, val * 10 + d, val)
         okc = z3.And(ln > start, alld, val < (1 << 64))
         return Enum('Result', z3.If(okc, 0, 1), {0: (S(val, 'u64'),), 1: (Opaque('ParseIntError'),)})
+
+
+class SplitM(Model):
+    """str::split(char) / splitn(n, char): the remaining text starts at `pos`; `finished` after the last piece"""
+
+    def __init__(self, s, c, pos, finished, limit=None):
+        self.s, self.c, self.pos, self.finished, self.limit = s, c, pos, finished, limit
+
+    def next(self, ip):
+        s = self.s
+        rest = Str(s.b, self.pos, s.hi)
+        if self.limit is not None and self.limit <= 1:
+            found, rel = z3.BoolVal(False), z3.IntVal(0)        # the last allowed piece is the whole remainder
+        else:
+            found, rel = rest.find_byte(self.c)
+        end = z3.simplify(z3.If(found, self.pos + rel, s.hi))
+        piece = Str(s.b, self.pos, end)
+        nxt = SplitM(s, self.c, z3.simplify(z3.If(found, end + 1, s.hi)), z3.simplify(z3.Or(self.finished, z3.Not(found))),
+                     None if self.limit is None else self.limit - 1)
+        return nxt, opt_sym(z3.simplify(z3.Not(self.finished)), Ref(Loc(Cell(piece, 'split-piece'))))
+        yield
+
+    def ite(self, c, o):
+        return self
 
 
 # ====================================================================== formatting (Display / to_string)
